@@ -1,5 +1,5 @@
 SPECIFICATION Spec
-CONSTANTS Mode = "reverse"  Variant = "ok"  Family = "mixed"  List = { }  Steps = 3
+CONSTANTS Mode = "reverse"  Variant = "ok"  Family = "mixed"  List = { }  Steps = 3  PairMod = 1
           Extra = { 1103, 1011, 1 }
 INVARIANT TypeOK
 INVARIANT WallsHold
